@@ -459,6 +459,9 @@ func (s *session) visitNode(sprint *sprint, run flows.Run, node flows.Node, trig
 		if err := trigger.InitializeRun(run, logEvent); err != nil {
 			return step, nil, "", nil
 		}
+
+		// initializing the run may have changed the contact (a msg trigger sets last seen on)
+		s.ensureQueryBasedGroups(logEvent)
 	}
 
 	// execute our node's actions
